@@ -57,6 +57,21 @@ def generate(tape, tier="quick"):
     pubs = []
     last = [None] * n_cons
     k = 0
+    if tape.chance(1, 8):
+        # a static link: one publication without a time, pulled again and again (for any time, in any order) by
+        # static inputs - every pull delivers the converted, re-arranged publication
+        form = tape.choice([f for f in (G_FORMS if gridded else (V_FORMS if ngdim else NG_FORMS))
+                            if f not in ("quantity_bad", "bad_shape", "same_obj", "view", "vec_bad", "copy_prev", "vec_copy")])
+        events.append(["PUSH", 0, 0, form, tape.choice(group)])
+        if ngdim:
+            events[-1].append([tape.rng_int(1, 4) for _ in range(ngdim)])
+        for _ in range(tape.rng_int(3, 9)):
+            events.append(["PULL", tape.draw(n_cons), tape.choice([0, 1, 5, -3, 40, 2])])
+        sc = {"engine": "D", "grid": g, "src_units": su, "consumers": cons, "events": events, "static": True,
+              "mask": tape.choice(["FLEX", "FLEX", "NONE", "fixed"] if gridded else ["FLEX", "FLEX", "NONE"])}
+        if ngdim:
+            sc["ngdim"] = ngdim
+        return sc
     for _ in range(tape.weighted([(10, 4), (20, 4), (35, 2)])):
         if tape.chance(2, 5) or not pubs:
             form = tape.choice(G_FORMS if gridded else (V_FORMS if ngdim else NG_FORMS))
@@ -119,7 +134,9 @@ def execute(sc):
     maskarr = (np.round(base * 3.7) % 4 == 0) if M else None
     fixed = sc["mask"] == "fixed"
     # a fixed mask in the metadata: everything published on this output carries exactly that mask
-    out = Output(name="src", info=Info(time=dt(0), grid=G, units=su, mask=maskarr if fixed else Mask[sc["mask"]]))
+    static = bool(sc.get("static"))
+    out = Output(name="src", info=Info(time=None if static else dt(0), grid=G, units=su,
+                                       mask=maskarr if fixed else Mask[sc["mask"]]), static=static)
     inputs = []
     cms = []
     for ci, c in enumerate(sc["consumers"]):
@@ -128,7 +145,8 @@ def execute(sc):
         else:
             cgrid, cm_ = ((make_grid(g) if g else NoGrid(dim=ngdim)) if c["grid"] == "same" else None), M
         cms.append(cm_)
-        inp = Input(name=f"c{ci}", info=Info(time=dt(0), grid=cgrid, units=c["units"], mask=Mask.FLEX))
+        inp = Input(name=f"c{ci}", info=Info(time=None if static else dt(0), grid=cgrid, units=c["units"], mask=Mask.FLEX),
+                    static=static)
         if c["scale"]:
             out >> Scale(2.0) >> inp
         else:
@@ -216,7 +234,7 @@ def execute(sc):
             elif form == "copy_prev":
                 payload = vals.copy()
             try:
-                out.push_data(payload, dt(t))
+                out.push_data(payload, None if static else dt(t))
                 ok = True
                 err = None
             except FinamDataError as ex:
@@ -255,7 +273,7 @@ def execute(sc):
                 act = (type(ex).__name__, str(ex)[:200])
             if not pubs:
                 continue
-            inrange = pubs[0][0] <= t <= pubs[-1][0]
+            inrange = static or pubs[0][0] <= t <= pubs[-1][0]
             log.append(("PULL", ci, str(t), act[0]))
             if not inrange:
                 if act[0] == "val":
@@ -271,6 +289,8 @@ def execute(sc):
             # nearest publication(s)
             best = min(abs(Fraction(p[0]) - Fraction(t)) for p in pubs)
             cands = [p for p in pubs if abs(Fraction(p[0]) - Fraction(t)) == best]
+            if static:
+                cands = pubs[:1]
             cu = c["units"] or su
             f = 2.0 if c["scale"] else 1.0
             arr = d.magnitude
